@@ -14,7 +14,7 @@ from typing import Dict, List, Optional, Tuple
 import common
 import spec as S
 
-GEN_VERSION = "18"
+GEN_VERSION = "19"
 
 STRUM_DERIVES = ["EnumString", "Display", "AsRefStr", "IntoStaticStr", "VariantNames", "EnumIter", "EnumCount", "FromRepr",
                  "VariantArray", "EnumDiscriminants", "EnumIs", "EnumTryAs", "EnumMessage", "EnumProperty", "EnumTable",
@@ -513,6 +513,9 @@ def family_big(start: int, sizes: List[int]) -> List[E]:
         out.append(E("Big%04d" % (start + i), "big", ["EnumString", "Display", "AsRefStr", "IntoStaticStr", "VariantNames", "EnumIter", "EnumCount", "FromRepr", "VariantArray",
                                                       "EnumIs", "EnumTable", "EnumDiscriminants", "EnumMessage", "EnumProperty"], vs, attrs=attrs, std_derives=["Clone", "Copy", "Debug", "PartialEq"],
                      repr="u16" if i % 2 else None))
+        # use_phf twin (C16): more keys than fit in one byte
+        out.append(E("Big%04d" % (start + i), "big_phf", ["EnumString"], [V(v.name, v.kind, [], [list(a) for a in v.attrs]) for v in vs],
+                     attrs=[(attrs[0] if attrs else []) + ["use_phf"]], std_derives=["Clone", "Debug", "PartialEq"], std_only=True, phf=True, twin_of="Big%04d" % (start + i)))
     return out
 
 
@@ -538,6 +541,21 @@ def family_raw_idents(start: int) -> List[E]:
         vs = [V("r#match"), V("r#type", "tuple", [(None, "u8")]), V("Plain"), V("r#loop", attrs=[["serialize = \"explicit-loop\""]]), V("r#Self_like")]
         metas = [["serialize_all = %s" % rstr(style)]] if style else []
         out.append(E("Raw%04d" % (start + i), "raw_idents", ["EnumString", "Display", "AsRefStr", "IntoStaticStr", "VariantNames", "EnumMessage", "EnumIter", "EnumCount"], vs, attrs=metas))
+    return out
+
+
+def family_case_pairs(start: int) -> List[E]:
+    """Family A7: case-sensitive spellings that differ only in ASCII case, declared after a variant with its own case flag."""
+    out = []
+    shapes = [
+        ([], [("Loud", ["ascii_case_insensitive", 'serialize = "loud9"']), ("Milli", ['serialize = "m"']), ("Mega", ['serialize = "M"']), ("Plain", [])]),
+        ([], [("First", ["ascii_case_insensitive"]), ("Kb", []), ("KB", []), ("kB", [])]),
+        (["ascii_case_insensitive"], [("Quiet", ["ascii_case_insensitive = false"]), ("Other7", []), ("Third8", ["ascii_case_insensitive = false", 'to_string = "third"'])]),
+        (['serialize_all = "lowercase"'], [("Marked", ["ascii_case_insensitive = true"]), ("Aa", ['serialize = "aa"']), ("Bb", ['serialize = "AA"']), ("CcDd", [])]),
+    ]
+    for i, (emetas, vs_) in enumerate(shapes):
+        vs = [V(n, "unit", [], [m_] if m_ else []) for n, m_ in vs_]
+        out.append(E("Cpr%04d" % (start + i), "case_pairs", ["EnumString", "Display", "AsRefStr", "IntoStaticStr", "EnumMessage", "VariantNames"], vs, attrs=[emetas] if emetas else []))
     return out
 
 
@@ -881,6 +899,7 @@ def generate(tier: str, seed: int) -> List[E]:
     es += family_strings(rng, 70 if tier == "quick" else 1000, 1)
     es += family_unit_strings(rng, 24 if tier == "quick" else 240, 1)
     es += family_big(1, [33, 257] if tier == "quick" else [33, 64, 129, 257, 600])
+    es += family_case_pairs(1)
     es += family_raw_idents(1)
     es += family_style_ci(1)
     es += family_overlap(1)
